@@ -122,6 +122,11 @@ def real_mod(a, m, facts, guard=None):
     return m * frac_term(a / m, facts)
 
 
+OPAQUE_NONLINEAR = [False]
+RMUL = z3.Function("rmul", z3.RealSort(), z3.RealSort(), z3.RealSort())
+RDIV = z3.Function("rdiv", z3.RealSort(), z3.RealSort(), z3.RealSort())
+
+
 def arith(op, a, b, facts):
     """binary arithmetic on scalars"""
     if isinstance(a, bool):
@@ -169,6 +174,10 @@ def arith(op, a, b, facts):
             return x + y
         if op == "-":
             return x - y
+        if OPAQUE_NONLINEAR[0] and op in ("*", "/") and not (z3.is_rational_value(z3.simplify(x)) or z3.is_rational_value(z3.simplify(y))):
+            # products / quotients of two symbolic reals as uninterpreted functions (sound weakening: only congruence is known; the
+            # contract states the arithmetic facts it needs as axioms).  Keeps the VC out of nonlinear arithmetic.
+            return (RMUL if op == "*" else RDIV)(x, y)
         if op == "*":
             return x * y
         if op == "/":
